@@ -70,11 +70,19 @@ def run_cvc5(smt2: str, timeout_ms: int) -> str:
 def discharge(ob, input_syms, timeout_ms):
     t0 = time.time()
     s = z3.Solver()
-    s.set("timeout", timeout_ms if ob.expect == "valid" else min(timeout_ms, 1000))
+    # portfolio: z3 with a short budget, then cvc5 on the same query text, then z3 with the full budget
+    s.set("timeout", min(timeout_ms, 2500) if ob.expect == "valid" else min(timeout_ms, 1000))
     for h in ob.hyps:
         s.add(h)
     s.add(z3.Not(ob.goal))
     r = s.check()
+    if r == z3.unknown and ob.expect == "valid":
+        r2 = run_cvc5(s.to_smt2(), timeout_ms)
+        if r2 == "unsat":
+            return {"name": ob.name, "kind": ob.kind, "expect": ob.expect, "solver": "cvc5", "status": "discharged",
+                    "time": round(time.time() - t0, 4)}
+        s.set("timeout", timeout_ms)
+        r = s.check()
     res = {"name": ob.name, "kind": ob.kind, "expect": ob.expect, "solver": "z3", "time": 0.0}
     if ob.expect == "refutable":
         # hygiene canary: hypotheses must be satisfiable (sat) - unsat means vacuous contract / dead code
